@@ -405,6 +405,29 @@ fn observe(spec: &Spec, rng: &mut Rng, out: &mut Vec<String>, with_expect: bool)
     out.push("callstack".into());
 }
 
+/// C09: permissions of loaded segments govern guest-visible accesses: stores and fetches are attempted on every segment
+pub fn gen_perm_cases(tier: &str, seed: u64, out: &mut Vec<String>) {
+    let mut rng = Rng::new(seed ^ 0xE1F9);
+    let n = if tier == "thorough" { 600 } else { 60 };
+    for _ in 0..n {
+        let mut spec = well_formed(&mut rng);
+        let (bytes, _) = build(&mut spec);
+        out.push("new".into());
+        out.push(format!("elfload {} #expect=ok", hex(&bytes)));
+        out.push("areas".into());
+        for s in spec.segs.iter().filter(|s| s.ptype == PT_LOAD) {
+            let prot = flags_to_prot(s.flags);
+            let a = s.vaddr + rng.below(s.memsz);
+            out.push(format!("perm {:x} #expect={:x}", a, prot));
+            out.push(format!("mrb {:x} 1{}", a, if prot & 1 != 0 { "" } else { " #expect=err" }));
+            out.push(format!("mrx {:x}{}", a, if prot & 4 != 0 { "" } else { " #expect=err" }));
+            out.push(format!("mwb {:x} 5a #expect={}", a, if prot & 2 != 0 { "ok" } else { "err" }));
+            out.push(format!("mw 8 {:x} 1122334455667788{}", s.vaddr, if prot & 2 != 0 { "" } else { " #expect=err" }));
+        }
+        out.push("areas".into());
+    }
+}
+
 pub fn observe_plain(spec: &Spec, rng: &mut Rng, out: &mut Vec<String>) {
     observe(spec, rng, out, false)
 }
@@ -457,7 +480,7 @@ pub fn gen_c16(tier: &str, seed: u64, out: &mut Vec<String>) {
         let mut spec = well_formed(&mut rng);
         // structural variants the loader must reject or survive
         if rng.chance(1, 5) {
-            match rng.below(8) {
+            match rng.below(9) {
                 0 => spec.segs.push(Seg { ptype: 2, flags: 6, vaddr: 0x60_0000, filesz: 0, memsz: 0, align: 8, content: vec![], offset: 0, fixed_offset: true }),
                 1 => spec.segs.push(Seg { ptype: 3, flags: 4, vaddr: 0x40_0200, filesz: 0, memsz: 0, align: 1, content: vec![], offset: 0, fixed_offset: true }),
                 2 => spec.segs.push(Seg { ptype: rng.next() as u32, flags: 4, vaddr: 0x50_0000, filesz: 0, memsz: 0, align: 1, content: vec![], offset: 0, fixed_offset: true }),
@@ -478,6 +501,15 @@ pub fn gen_c16(tier: &str, seed: u64, out: &mut Vec<String>) {
                 6 => {
                     // load at the very top of the address space
                     spec.segs.push(Seg { ptype: PT_LOAD, flags: 6, vaddr: u64::MAX - rng.below(0x3000), filesz: 0, memsz: 1 + rng.below(0x3000), align: 0x1000, content: vec![], offset: 0, fixed_offset: false });
+                }
+                7 => {
+                    // a load whose size alone is close to 2^64 but whose end still fits the address space (tiny p_vaddr): the
+                    // running image total must not overflow; placed after, before or between the other loads
+                    let va = *rng.pick(&[0x1000u64, 0x10000, 0x2000]);
+                    let end = 0u64.wrapping_sub(0x1000 * (1 + rng.below(4)));
+                    let sg = Seg { ptype: PT_LOAD, flags: 6, vaddr: va, filesz: 0, memsz: end - va - rng.below(2), align: 0x1000, content: vec![], offset: 0, fixed_offset: false };
+                    let at = rng.below(spec.segs.len() as u64 + 1) as usize;
+                    spec.segs.insert(at, sg);
                 }
                 _ => {
                     // legitimately large bss
